@@ -32,8 +32,9 @@ func Main() {
 	r.Assume("value that reaches an account after it self-destructed in the same transaction is deleted with the account (standard EVM rule); it is counted separately from self-destruct-to-self burns")
 	r.Cases("corpus", 2*len(scenarios()), core.Opts{}, corpusCase)
 	r.Cases("random", r.N(700, 120000), core.Opts{Workers: 16}, randomCase)
-	r.Cases("block-corpus", 6, core.Opts{Workers: 6}, blockCase)
-	r.Cases("block", r.N(16, 1500), core.Opts{Workers: 16}, blockCase)
+	// block level: real chain stacks with background goroutines, so in child processes
+	r.Cases("block-corpus", 6, core.Opts{Procs: 2, Workers: 3, StallSec: 600}, blockCase)
+	r.Cases("block", r.N(16, 1500), core.Opts{Procs: 4, Workers: 4, StallSec: 600}, blockCase)
 	r.Floor("executed", 1500)
 	r.Floor("rejected", 500)
 	for _, k := range []string{"nonce-low", "nonce-high", "insufficient-funds-for-gas", "block-gas-exhausted", "intrinsic-gas", "insufficient-funds-for-transfer", "signature"} {
@@ -48,6 +49,7 @@ func Main() {
 	r.Floor("tx_refund_capped", 10)
 	r.Floor("corpus_scenarios", int64(2*len(scenarios())))
 	r.Floor("blocks", 30)
+	r.Floor("runs_without_tracer_compared", 100)
 	r.Floor("blocks_mixing_executed_and_rejected", 15)
 	r.Finish()
 }
